@@ -22,6 +22,11 @@ fetch_refs), interleaved at every transport operation (all interleavings when
 their number is below a stated limit, else a stated preemption bound).  Oracle:
 the recorded conditional operations (call/return interval = first/last transport
 operation) and the final ref value form a linearisable history of one register.
+Push level: two pushers (Branch.push, or fetch_refs called directly, from two bzr
+branches) of a NEW ref with the same name and of an existing ref; the final
+conditional write of a push must behave as add-only-if-new for a ref absent from
+the snapshot fetch_refs took (_get_target_either_refs) and as set-if-still-the-
+snapshot-value otherwise, whichever primitive/expected value fetch_refs passed.
 """
 import itertools
 import math
@@ -48,6 +53,7 @@ class World:
         self.store = new_store()
         self.root = self.store.transport("")      # get_transport costs ~1.5 ms; clones are cheap
         self.hist = []
+        self.snaps = {}
         self.sim = None
         self._wrap()
 
@@ -86,6 +92,17 @@ class World:
         for opname in OPS:
             setattr(RC, opname, wrap(opname, getattr(RC, opname)))
         RC._verif_c37 = True
+        # observation only: the snapshot of the target's refs a push (fetch_refs) decides from
+        from breezy.git.interrepo import InterToLocalGitRepository as ITL
+        orig_snap = ITL._get_target_either_refs
+
+        def snap(self_):
+            r = orig_snap(self_)
+            p = getattr(w.store.tl, "proc", None)
+            if p is not None and w.sim is not None:
+                w.snaps[p] = {k: v[0] for k, v in r.items()}
+            return r
+        ITL._get_target_either_refs = snap
 
 
 _W = None
@@ -327,20 +344,36 @@ REF_SCENARIOS = [
     ("packed", ("WDELO",), ("WDEL", "V1")),
     ("packed", ("DELO",), ("DEL", "V1")),
 ]
+#   PUSH / PUSH2   Branch.push(lossy=True) of bzr branch b / b2 into the git branch (takes the branch's ref lock,
+#                  then the real InterToLocalGitRepository.fetch_refs)
+#   FREFS / FREFS2 InterToLocalGitRepository.fetch_refs called directly for b / b2 (no ref lock)
+# initial states: pushed-r1 = refs/heads/master exists (r1 of b was pushed; b has r2, b2 has r1 + its own r2b);
+#                 fresh = the git repository has no refs/heads/master yet (b has r1, r2; b2 has its own root)
 PUSH_SCENARIOS = [
     ("pushed-r1", ("PUSH",), ("SET", "VB")),
     ("pushed-r1", ("PUSH",), ("CAS", "G1", "VB")),
     ("pushed-r1", ("PUSH",), ("LRMW", "VB")),
+    ("pushed-r1", ("FREFS",), ("SET", "VB")),
+    ("pushed-r1", ("FREFS",), ("FREFS2",)),
+    ("pushed-r1", ("PUSH",), ("PUSH2",)),
+    ("fresh", ("PUSH",), ("SET", "VB")),
+    ("fresh", ("PUSH",), ("ADD", "VB")),
+    ("fresh", ("FREFS",), ("SET", "VB")),
+    ("fresh", ("FREFS",), ("ADD", "VB")),
+    ("fresh", ("FREFS",), ("FREFS2",)),
+    ("fresh", ("PUSH",), ("PUSH2",)),
 ]
+PUSHERS = ("PUSH", "PUSH2", "FREFS", "FREFS2")
 
 
 def scenarios():
     return [("ref",) + s for s in REF_SCENARIOS] + [("push",) + s for s in PUSH_SCENARIOS]
 
 
-def push_snapshot(w):
-    """Store content: bzr branch b (r1, r2), bare git repository g into which r1 was pushed."""
-    if getattr(w, "push_snap", None) is None:
+def push_snapshot(w, init):
+    """Store content: bzr branches b and b2, bare git repository g (see PUSH_SCENARIOS)."""
+    snaps = w.__dict__.setdefault("push_snaps", {})
+    if init not in snaps:
         from breezy.controldir import format_registry
         from mc import world as mw
         s = w.store
@@ -349,22 +382,31 @@ def push_snapshot(w):
         gt.ensure_base()
         d = format_registry.make_controldir("git-bare").initialize_on_transport(gt)
         b = mw.make_branch(s.transport("b"), "2a")
+        b2 = mw.make_branch(s.transport("b2"), "2a")
         mw.commit_spec(b, b"r1", [], {"a": mw.F(b"a-id", b"1\n")})
         gb = d.create_branch()
-        b.push(gb, lossy=True)
+        g1 = None
+        if init == "pushed-r1":
+            b.push(gb, lossy=True)
+            b2.repository.fetch(b.repository, revision_id=b"r1")
+            with b2.lock_write():
+                b2.generate_revision_history(b"r1")
+            mw.commit_spec(b2, b"r2b", [b"r1"], {"a": mw.F(b"a-id", b"2b\n")})
+        else:
+            mw.commit_spec(b2, b"r1b", [], {"a": mw.F(b"a-id", b"1b\n")})
         mw.commit_spec(b, b"r2", [b"r1"], {"a": mw.F(b"a-id", b"2\n")})
         raw, _, _, _, _ = H.read_state(s.walk(ROOT))
         g1 = H.follow(raw, MASTER)[1]
-        if g1 is None or H.follow(raw, HEAD)[1] != g1:
-            raise HarnessError("push scenario: initial push did not set %r" % MASTER)
-        w.push_snap = s.walk()
-        w.g1 = g1
-    return w.push_snap
+        if (g1 is None) != (init == "fresh") or H.follow(raw, HEAD)[1] != g1:
+            raise HarnessError("push scenario %s: unexpected initial value of %r: %r" % (init, MASTER, g1))
+        snaps[init] = (s.walk(), g1)
+    w.g1 = snaps[init][1]
+    return snaps[init][0]
 
 
 def initial(w, family, init):
     if family == "push":
-        return push_snapshot(w), MASTER
+        return push_snapshot(w, init), MASTER
     return H.layout(T, init, "headsym", True), T
 
 
@@ -395,16 +437,26 @@ def make_body(w, family, target, spec):
         return c.set_if_equals(target, old, new)
 
     def body(i):
-        if kind == "PUSH":
+        if kind in PUSHERS:
             from breezy.branch import Branch
-            src = Branch.open(w.store.url + "b")
+            from breezy.errors import DivergedBranches
+            src = Branch.open(w.store.url + ("b2" if kind.endswith("2") else "b"))
             # the git prober refuses in-process transports; open the bare git dir through its format
             from breezy.controldir import format_registry
             dst = format_registry.make_controldir("git-bare").open(w.root.clone("g"), _found=True).open_branch()
             try:
-                src.push(dst, lossy=True)
+                if kind.startswith("PUSH"):
+                    src.push(dst, lossy=True)
+                else:
+                    from breezy.repository import InterRepository
+                    inter = InterRepository.get(src.repository, dst.repository)
+                    revid = src.last_revision()
+                    with src.lock_read(), dst.repository.lock_write():
+                        inter.fetch_refs(lambda old_refs: {target: (None, revid)}, lossy=True)
             except LockContention:
                 return "contention"
+            except DivergedBranches:
+                return "diverged"
             return "pushed"
         try:
             return body2(i)
@@ -461,6 +513,7 @@ def run_sched(scn, prefix):
     w.store.restore(files)
     del w.store.log[:]
     w.hist = []
+    w.snaps = {}
     bodies = [make_body(w, family, target, sa), make_body(w, family, target, sb)]
     raw0 = H.read_state(w.store.walk(ROOT))[0]
     vals = [H.follow(raw0, target)[1]]
@@ -484,6 +537,7 @@ def run_sched(scn, prefix):
         w.sim = None
     sim.vals = vals
     sim.hist = w.hist
+    sim.snaps = dict(w.snaps)
     sim.states = states
     sim.target = target
     sim.final = H.read_state(w.store.walk(ROOT))
@@ -546,7 +600,7 @@ def judge_schedule(scn, sim):
     # LockContention is the documented refusal of an operation that found the ref locked: no effect
     hist = [h for h in hist if h["result"] != "raised:LockContention"]
     ops = [h for h in hist if not (isinstance(h["result"], str) and h["result"].startswith("raised"))]
-    nlocked = sum(1 for s in scn[2:4] if s[0] in ("LRMW", "PUSH"))
+    nlocked = sum(1 for s in scn[2:4] if s[0] in ("LRMW", "PUSH", "PUSH2"))
     locked = {0: "no-lock", 1: "one-updater-without-lock", 2: "under-ref-lock"}[nlocked]
     if len(ops) != len(hist):
         # an operation raised something else: its effect is unknown, the process error above reports it
@@ -559,6 +613,28 @@ def judge_schedule(scn, sim):
             sim.torn_read = True
             return out
         out.append(classify(ops, hist, vals, final, locked))
+        return out
+    # A push decides from a snapshot of the target's refs: its final conditional write must behave as
+    # "add only if new" for a ref absent from that snapshot and as "set if still the snapshot value" otherwise,
+    # whatever primitive and expected value fetch_refs chose to pass.
+    intent = []
+    for h in ops:
+        spec = scn[2 + h["proc"]]
+        if spec[0] in PUSHERS and h["opname"] in ("set_if_equals", "add_if_new") and h["proc"] in sim.snaps:
+            new_value = h["op"][2]
+            seen = sim.snaps[h["proc"]].get(sim.target)
+            h = dict(h, op=("add", None, new_value) if seen is None else ("set", seen, new_value),
+                     intended=True)
+        intent.append(h)
+    if any(h.get("intended") for h in intent) and not H.linearisable(vals[0], intent, final):
+        sig, d = classify(intent, intent, vals, final, locked)
+        sig = {"schedule:add_if_new:ref-existed-throughout": "schedule:fetch_refs:overwrote-ref-created-after-its-snapshot",
+               "schedule:set_if_equals:expected-value-never-held":
+                   "schedule:fetch_refs:overwrote-ref-changed-after-its-snapshot"}.get(
+            sig, sig.replace("schedule:non-linearisable:", "schedule:fetch_refs:non-linearisable:"))
+        d["snapshot_of_target_ref"] = {("P%d" % p): show(v.get(sim.target)) for p, v in sim.snaps.items()}
+        d["calls_made"] = brief_hist(hist)
+        out.append((sig, d))
         return out
     # refs nobody addressed keep their value (DELO removes refs/tags/pk on purpose)
     for k, v in sim.others0.items():
